@@ -39,6 +39,8 @@ pub enum Neutral {
     If(V, Th, Th),
     // out of fuel: an unknown value
     Unknown,
+    // the result of evaluating an ill-typed term (e.g. applying a non-function): equal to nothing
+    Junk,
 }
 
 #[derive(Clone)]
@@ -302,13 +304,13 @@ impl Checker {
                 if let Neutral::Unknown = *n {
                     return unknown();
                 }
+                if let Neutral::Junk = *n {
+                    return V::N(n);
+                }
                 V::N(Rc::new(Neutral::App(n, arg)))
             }
-            // ill-typed application: stuck as an opaque neutral (only reachable on ill-typed terms)
-            _ => {
-                self.exhausted = true;
-                unknown()
-            }
+            // ill-typed application: an opaque junk value (only reachable on ill-typed terms)
+            _ => V::N(Rc::new(Neutral::Junk)),
         }
     }
 
@@ -588,6 +590,7 @@ impl Checker {
                 self.exhausted = true;
                 M::Hole(usize::MAX, 0)
             }
+            Neutral::Junk => M::Hole(usize::MAX - 2, 0),
         }
     }
 }
